@@ -69,6 +69,14 @@ def typ_kind(t):
         return "none"
     if t in ("int", "float", "str", "bool", "complex"):
         return "scalar:" + t
+    if " | " in t:
+        return "pep604"
+    if t.startswith("Dict["):
+        return "dict"
+    if t.startswith("Tuple["):
+        return "tuple"
+    if t.startswith("List[") and "[" in t[5:]:
+        return "nested-list"
     if t.startswith("Optional[Union["):
         return "optunion"
     if t.startswith("Optional["):
@@ -687,6 +695,10 @@ WITNESSES = {
     "C02-nan-default-binop": ("class", REST, _ir([("x", {"doc": "a value", "typ": "float", "default": _v("float", "nan")})])),
     "C02-doc-inf-nan-default-raises": ("class", {"style": "google", "edd": True}, _ir([("x", {"doc": "a value", "typ": "float", "default": _v("float", "inf")})])),
     "C02-return-number-source-evaluated": ("function", FN, _ir([], {"doc": "the result", "typ": "List[float]", "default": _v("str", "1e+20")})),
+    "C02-argparse-pep604-flattened": ("argparse", REST, _ir([("x", {"doc": "a value", "typ": "List[int] | None"})])),
+    "C02-argparse-dict-flattened": ("argparse", REST, _ir([("x", {"doc": "a value", "typ": "Dict[str, int]"})])),
+    "C02-argparse-tuple-flattened": ("argparse", REST, _ir([("x", {"doc": "a value", "typ": "Tuple[int, str]"})])),
+    "C02-argparse-nested-list-flattened": ("argparse", REST, _ir([("x", {"doc": "a value", "typ": "List[Optional[int]]"})])),
     "C02-doc-google-numpydoc-argparse-return": ("argparse", {"style": "google", "edd": False}, _ir([], {"doc": "the result", "typ": "int", "default": _v("str", "K")})),
 }
 
@@ -726,6 +738,10 @@ CORNERS = [
               ("cap", {"doc": "the other bound", "typ": "float", "default": _v("float", "1e+20")})]), doc="Summary line."),
     dict(_ir([("scale", {"doc": "the scale used", "typ": "float", "default": _v("float", "2.5e+16")}), ("tiny", {"doc": "the step used", "typ": "Optional[float]", "default": _v("float", "5e-324")}),
               ("huge", {"doc": "the limit used", "typ": "int", "default": _v("int", str(10 ** 30))})], {"doc": "the result", "typ": "List[float]", "default": _v("str", "K")}), doc=""),
+    # return types that contain "[" but do not end in "]" (PEP 604), with a return default, so that `_interpolate_return` looks at the type
+    dict(_ir([("n", {"doc": "a count", "typ": "int"})], {"doc": "the result", "typ": "Tuple[int, str] | None", "default": _v("str", "```foo(3)```")}), doc="Summary line."),
+    dict(_ir([("seq", {"doc": "the items", "typ": "List[int] | None"}), ("opts", {"doc": "the options", "typ": "Dict[str, Optional[int]]", "default": _v("str", "```bar(1)```")})],
+             {"doc": "the result", "typ": "Dict[str, int] | None", "default": _v("str", "K")}, typ="self"), doc=""),
     dict(_ir([("flag", {"doc": "Kept between runs,", "typ": "bool", "default": _v("bool", "False")})],
              {"doc": "One of: alpha, beta; or (gamma)", "typ": "List[int]", "default": _v("str", "K")}, typ="self"), doc="Summary line."),
 ]
@@ -890,7 +906,8 @@ def run(chk: core.Check) -> int:
     extra = collections.Counter()
     n_extra_thm = 0
     nirs = G.gen_numeric_irs(rng, 44 if chk.quick else 660)
-    for label, irs_ in (("quotes", qirs), ("keywords", kirs), ("numeric", nirs)):
+    tirs = G.gen_typeshape_irs(rng, rounds=3 if chk.quick else 30)
+    for label, irs_ in (("quotes", qirs), ("keywords", kirs), ("numeric", nirs), ("types", tirs)):
         xcases = [(f, c, ir) for ir in irs_ for f in R.FORMATS for c in CFGS[f]]
         for i in range(0, len(xcases), B):
             for rec in run_cases(chk, xcases[i:i + B], label):
@@ -899,7 +916,11 @@ def run(chk: core.Check) -> int:
                 ok_thm = theorem_instance(chk, rec, claimed)
                 n_extra_thm += ok_thm
                 chk.count((label, rec["fmt"], json.dumps(rec["cfg"], sort_keys=True), json.dumps(rec["irj"], sort_keys=True)), ok_thm)
-                if label == "numeric":
+                if label == "types":
+                    rp = rec["irj"]["returns"]
+                    extra[("types", "function" if rec["fmt"] == "function" else "class/pydantic/argparse", "return " + rp["typ"],
+                           "return default " + default_kind(rp.get("default")), "theorem applies" if ok_thm else "outside D02 / hypotheses")] += 1
+                elif label == "numeric":
                     ps = rec["irj"]["params"]
                     for pos, (_, p) in enumerate(ps):
                         place = "only" if len(ps) == 1 else "first" if pos == 0 else "last" if pos == len(ps) - 1 else "middle"
@@ -912,13 +933,13 @@ def run(chk: core.Check) -> int:
                 else:
                     extra[("keywords", rec["fmt"], rec["cfg"]["style"], interface_keywords(rec["irj"]) or "control", "theorem applies" if ok_thm else "outside D02 / hypotheses")] += 1
     chk.coverage["quote_and_keyword_streams"] = {"quote interfaces": len(qirs), "keyword interfaces": len(kirs), "numeric interfaces": len(nirs),
-                                                 "cases": (len(qirs) + len(kirs) + len(nirs)) * 42,
+                                                 "type-shape interfaces": len(tirs), "cases": (len(qirs) + len(kirs) + len(nirs) + len(tirs)) * 42,
                                                  "cases inside D02 with the docstring-layer hypotheses true": n_extra_thm,
                                                  "distribution": {" | ".join(k): v for k, v in sorted(extra.items())}}
     n_dis = sum(v for k, v in stats.items() if k[-1] == "DISAGREE")
     n_agree = sum(v for k, v in stats.items() if k[-1] == "agree" or k[-1].startswith("both raise") or k[-1].startswith("docstring layer raises"))
-    chk.oblige("correspondence: real emitters/parsers = Iface.emit / Top.reparse / Iface.parse on %d generated cases + %d hand-written sources + %d trigger cases + %d wrap-boundary cases + %d separator cases + %d quote / keyword / numeric cases + %d witnesses "
-               "(emitted AST, re-parsed AST, parsed IR)" % (n_main, len(srcs), len(tcases), len(wcases), len(pcases), (len(qirs) + len(kirs) + len(nirs)) * 42, len(WITNESSES)), "correspondence", n_dis == 0,
+    chk.oblige("correspondence: real emitters/parsers = Iface.emit / Top.reparse / Iface.parse on %d generated cases + %d hand-written sources + %d trigger cases + %d wrap-boundary cases + %d separator cases + %d quote / keyword / numeric / type-shape cases + %d witnesses "
+               "(emitted AST, re-parsed AST, parsed IR)" % (n_main, len(srcs), len(tcases), len(wcases), len(pcases), (len(qirs) + len(kirs) + len(nirs) + len(tirs)) * 42, len(WITNESSES)), "correspondence", n_dis == 0,
                "%d disagreements; %d stage agreements; %d cases fully claimed by the model" % (n_dis, n_agree, n_claimed))
     chk.coverage["correspondence_outcomes"] = {" | ".join(k): v for k, v in sorted(stats.items())}
     chk.coverage["input_distribution"] = {" | ".join(k): v for k, v in sorted(cov.items())}
@@ -933,7 +954,8 @@ def run(chk: core.Check) -> int:
                       "textwrap.fill breaks the line at every position of '. Defaults to <value>') through the same real pipeline and oracle; plus a separator stream (descriptions of parameters and return entries with commas, colons, "
                       "semicolons, ' - ', parentheses, '->', '=', quotes, trailing comma; fixed corner interfaces on every seed); a quote stream (string defaults with quote characters in every position) and a keyword stream "
                       "(descriptions mentioning Args: / Returns: / Raises: / Kwargs: / Parameters / underlined headings / :param / :return: as prose, with colon-less controls); a numeric stream (exponent reprs with + and -, many digits, inf / nan, -0.0, 10**30, complex with exponents, "
-                      "each kind in first / middle / last position)")
+                      "each kind in first / middle / last position); a type-shape stream (PEP 604 unions, nested and multi-argument subscripts, names beginning like Optional / a simple "
+                      "type: strings on which '[' in typ, endswith(']'), startswith('Optional['), 'Optional' in typ disagree), as parameter and return types with every return-default kind")
 
 
 def prim_correspondence(chk, rng):
@@ -945,6 +967,7 @@ def prim_correspondence(chk, rng):
     types = set()
     for _ in range(600):
         types.add(G.gen_typ(rng)[0])
+    types |= set(G.TYPE_SHAPES)
     types |= {"str", "Optional[str]", "List[str]", "Dict[str, int]", "strict", "np.str_", "Optional[Literal['a', 'b']]", "Tuple[int, int]", "Any", "object", "dict"}
     types = sorted(types)
     strs = sorted(set(G.STRS + G.MORE_DOCS + G.TRIGGER_DOCS + G.RET_CODES + G.CODES + ["'x'", '"x"', "''", '""', "'", "a'b", 'a"b', "it's \"x\"", "a\\b", "tab\there", "line\nbreak  two ", "``", "```x```", "```abc",
